@@ -134,14 +134,14 @@ CLAIMED['C01'] = {
             'completion check is passed on the true edge of requires_vertex_links_at_completion; certifiers are verifiers that '
             'cannot answer Ok without a check having run; no constructor returns Ok after a flip repair without the cell '
             'orientation having been re-validated; sibling constructors (plain / statistics) reach the same verifiers; the '
-            'first construction attempt uses the caller\'s vertices unperturbed; per-insertion statistics record the outcome that is reported; a stale cell hint reaches the same fallback scan as no hint; the k=2 local-Delaunay predicate behind the verifier does not mask a positive in-sphere sign (violated today: known finding F24, D >= 4). The debug and the '
+            'first construction attempt uses the caller\'s vertices unperturbed; per-insertion statistics record the outcome that is reported; a stale cell hint reaches the same fallback scan as no hint; the statistics returned with a triangulation come from the construction call that produced it; because the shuffled-retry path re-checks candidates with the brute-force verifier, the bodies that build a triangulation themselves must return Ok only behind it (contradiction rule; violated today: known finding F25, the RetryPolicy::Disabled / release path); the k=2 local-Delaunay predicate behind the verifier does not mask a positive in-sphere sign (violated today: known finding F24, D >= 4). The debug and the '
             'release fact bases are analysed separately because RetryPolicy and validation paths differ — the suite '
             'never runs the release paths. Decides "Ok is certified", not that the certifier is numerically right.',
     'note': 'Trusted: rustc MIR; the L4 leaf table; Pseudomanifold has no Level-3 completion gate by design (noted in '
             'evidence). Of the vertex-set clause only element conservation in the de-duplication family and UUID/data of '
-            're-created vertices are decided; of the statistics only that each (outcome, statistics) pair agrees. Known finding F24 '
+            're-created vertices are decided; of the statistics only that each (outcome, statistics) pair agrees. Known findings F24 '
             '(4-D constructors return Ok with cells violating the empty-circumsphere property) is listed in known_findings.txt '
-            'with its run-time witness; the check prints KNOWN-FINDING for it and exits 0.',
+            'with its run-time witness, as is F25 (3-D lattice input, Ok with 4 non-Delaunay cells under RetryPolicy::Disabled); the check prints KNOWN-FINDING for them and exits 0.',
     'technique': 'greatest-fixed-point certification (dominance on success edges) over rustc MIR',
     'design': '§5 C01',
 }
@@ -180,7 +180,7 @@ CLAIMED['C07'] = {
             'builders; the 12 Edit-API methods and the kernel layers are clean on failure (C03 engine); every simplex hash '
             'used by the guards is computed over the same canonical (u64-sorted) key sequence at the index builder and at '
             'every lookup; the kernel reports success only behind neighbour wiring, removal of the old cells and the '
-            'coherent-orientation normalisation, for every k; each context builder refuses dimensions below the size of its move; a negatively oriented new cell is reordered before insertion. Decides "no mutation before the guards, no unvalidated context, no trace on failure, guards and '
+            'coherent-orientation normalisation, for every k; each context builder refuses dimensions below the size of its move; a negatively oriented new cell is reordered before insertion; the run-time move size handed to the dynamic flip entry is computed from the const dimension alone and the Edit API and the repair loop agree on it per context builder. Decides "no mutation before the guards, no unvalidated context, no trace on failure, guards and '
             'index agree on keys, the structural post-steps are never skipped"; not manifold preservation, counts or invertibility.',
     'note': 'Trusted: as for C03; 4 assumed-infeasible exits in the kernel and known finding F2 (2 exits) are shared with C03.',
     'technique': 'must-pass-through (dominance), construction-site enumeration and rollback dataflow over rustc MIR',
